@@ -8,6 +8,7 @@ raised inside the k-th forward call / reference-generator call / backward hook, 
 invalid inputs), and histories of calls on one shared model versus fresh copies.
 """
 import copy
+import os
 import sys
 import warnings
 
@@ -43,8 +44,17 @@ class Injected(Exception):
     pass
 
 
+_LOCK = None
+
+
 def prebuild():
-    global _FNS
+    global _FNS, _LOCK
+    # coq/C07/Generated.v is shared by every C07 run: concurrent runs (e.g. against different
+    # scratch copies of the repository) are serialised for their whole lifetime
+    import fcntl
+    os.makedirs(os.path.join(C.WORK, 'C07'), exist_ok=True)
+    _LOCK = open(os.path.join(C.WORK, 'C07', 'lock'), 'w')
+    fcntl.flock(_LOCK, fcntl.LOCK_EX)
     fns, errors = S.translate_all()
     for f in fns:
         if f['term'] == 'Raise':
